@@ -52,6 +52,16 @@ partial def getEx? (j : Json) : Option (Ex Float) := do
   | "sqnorm" => some (.sqnorm (← sub "a"))
   | "quad" => some (.quad (← fFloatList? j "d") (← sub "a"))
   | "gauss" => some (.gauss (← fFloatList? j "data") (← fFloatList? j "icov") (← sub "a"))
+  | "const" => do
+      let parts ← (field? j "parts").bind getArr?
+      let kv ← parts.mapM (fun p => do
+        match (← getArr? p) with
+        | [k, v] => some ((← getStr? k), (← floatList? v))
+        | _ => none)
+      some (.const (← fBool? j "energy") (kv.map (fun p => (p.1, p.2.length)))
+        (fun k i => match kv.find? (·.1 == k) with
+          | some (_, l) => l.getD i 0.0
+          | none => 0.0))
   | _ => none
 
 /-- same keys with the same sizes (as sets) -/
@@ -81,6 +91,7 @@ def check : Ex Float → Dom → Bool
   | .sqnorm a, d => check a d
   | .quad c a, d => check a d && domEq a.dom [("", c.length)]
   | .gauss dt ic a, d => check a d && domEq a.dom [("", dt.length)] && ic.length == dt.length
+  | .const _ _ _, _ => true
 
 def flat (d : Dom) (v : MVal Float) : List Float :=
   d.flatMap (fun kn => (List.range kn.2).map (v kn.1))
